@@ -74,6 +74,18 @@ def check_case(case, stats=None):
         if stats:
             stats.counters['skipped_run_not_quiescent'] += 1
         return []
+    if case.get('auto_resume'):
+        # known finding join-retrigger, resume variant: the route of a task
+        # that completed in front of a `pause` command is counted by the
+        # join at once (it is recorded in next_tasks) and dispatched again
+        # from the backlog on resume, after the join ran: Task.defer puts
+        # the join back to WAITING.  Classified by the compare-and-swap log
+        # of this run, counted, not judged.
+        from mv.props.c10 import _retriggered
+        if _retriggered(res.snap):
+            if stats:
+                stats.counters['known_shape_join_retrigger_seen'] += 1
+            return []
     tg = G.tags(prog, case['outcomes'])
     viol = []
     nontriv = False
@@ -268,9 +280,17 @@ def shard_main(shard, nshards, seed, tier, opts):
     sched_type = common.shard_scheduler(shard)
     sim.boot(sched_type)
     F = G.feats(commands=False, publish=False, defaults=False)
+    if shard % 4 == 3:
+        # a quarter of the shards: definitions that pause themselves (the
+        # `pause` command in transition lists, possibly in front of a join);
+        # the harness resumes whenever nothing else is pending
+        F = G.feats(commands=True, state_commands=False, pause_cmd=True,
+                    publish=False, defaults=False)
     strat = common.engine_case_strategy(max_tasks=opts.get('max_tasks', 8),
                                         feats=F, reverse_p=0.25,
                                         max_devs=opts.get('max_devs', 8))
+    if shard % 4 == 3:
+        strat = strat.map(lambda c: dict(c, auto_resume=True))
     fail = runner.drive(strat, lambda c: check_case(c, st),
                         opts.get('examples', 40), seed * 1000 + shard,
                         time_budget=opts.get('time_budget'),
